@@ -518,31 +518,60 @@ def case_apind(ctx, inp):
 
 
 def case_vindex(ctx, inp):
-    """Point-wise selection x.vindex[...] vs NumPy fancy indexing."""
+    """Point-wise selection x.vindex[...]: integer arrays of any (broadcastable) shape, mixed with ints, slices and
+    Ellipsis; the broadcast point dimensions come first. Reference: NumPy on the axes moved to the front."""
     import numpy as np
     import dask.array as da
     shape, chunks = tuple(inp["shape"]), tuple(tuple(c) for c in inp["chunks"])
     x = np.arange(int(np.prod(shape))).reshape(shape) * 3 + 1
     d = da.from_array(x, chunks=chunks)
-    idx = tuple(slice(None) if v is None else np.array(v, dtype=int) for v in inp["index"])
+    idx, nonfancy, arrays = [], [], []
+    for kind, v in inp["index"]:
+        if kind == "array":
+            a = np.array(v, dtype=int).reshape(inp["ashapes"][len(arrays)])
+            idx.append(a)
+            nonfancy.append(slice(None))
+            arrays.append(a)
+        elif kind == "slice":
+            idx.append(slice(*v))
+            nonfancy.append(slice(*v))
+        elif kind == "int":
+            idx.append(int(v))
+            nonfancy.append(int(v))
+        else:
+            idx.append(Ellipsis)
+            nonfancy.append(Ellipsis)
+    # reference
+    y = x[tuple(nonfancy)]
+    rem = []      # for each remaining axis of y: index array or None
+    it = iter(arrays)
+    nell = len(shape) - sum(1 for k, _ in inp["index"] if k != "ellipsis")
+    for kind, v in inp["index"]:
+        if kind == "array":
+            rem.append(next(it))
+        elif kind == "slice":
+            rem.append(None)
+        elif kind == "ellipsis":
+            rem.extend([None] * nell)
+    rem += [None] * (y.ndim - len(rem))
+    axes = [i for i, r in enumerate(rem) if r is not None]
+    oob = any(((r >= y.shape[i]) | (r < -y.shape[i])).any() for i, r in enumerate(rem) if r is not None)
     try:
-        exp = x[idx]
-    except IndexError:
-        ctx.note("numpy-rejects")
-        return
-    # NumPy puts the broadcast point dimension first only when array indices are separated by a slice;
-    # vindex always puts it first.
-    arr_pos = [i for i, v in enumerate(inp["index"]) if v is not None]
-    contiguous = arr_pos == list(range(arr_pos[0], arr_pos[-1] + 1))
-    if contiguous and arr_pos[0] > 0:
-        nb = np.broadcast(*[i for i in idx if not isinstance(i, slice)]).ndim
-        exp = np.moveaxis(exp, list(range(arr_pos[0], arr_pos[0] + nb)), list(range(nb)))
-    try:
-        r = d.vindex[idx]
+        r = d.vindex[tuple(idx)]
         got = np.asarray(r.compute(scheduler="sync"))
+    except IndexError as e:
+        if oob:
+            ctx.branch("vindex-out-of-bounds-rejected")
+            return
+        ctx.fail("x.vindex[index] raised IndexError for in-bounds points", observed=repr(e)[:300])
+        return
     except Exception as e:
         ctx.fail("x.vindex[index] raised " + type(e).__name__, observed=repr(e)[:300])
         return
+    if oob:
+        ctx.fail("vindex accepted out-of-bounds points", observed=got.tolist())
+        return
+    exp = np.moveaxis(y, axes, list(range(len(axes))))[tuple(np.broadcast_arrays(*[rem[i] for i in axes]))] if axes else y
     if got.shape != exp.shape or (got != exp).any():
         ctx.fail("vindex differs from NumPy point selection", observed=[list(got.shape), got.tolist()],
                  expected=[list(exp.shape), exp.tolist()])
@@ -552,8 +581,13 @@ def case_vindex(ctx, inp):
     else:
         _blocks_agree(ctx, r, "vindex")
     ctx.branch("vindex")
-    if any(v is None for v in inp["index"]):
-        ctx.branch("vindex-with-slice")
+    kinds = [k for k, _ in inp["index"]]
+    for k in set(kinds):
+        ctx.branch("vindex-" + k)
+    if len(arrays) > 1:
+        ctx.branch("vindex-several-arrays")
+    if any(a.ndim != 1 for a in arrays):
+        ctx.branch("vindex-nd-points")
 
 
 def case_blocks(ctx, inp):
@@ -763,15 +797,41 @@ def generate(ctx):
     for _ in range(ctx.n(140, 2500)):
         shape, chunks = _rand_nd(rng)
         yield "apind", {"shape": shape, "chunks": chunks, "index": _rand_nd_index(rng, shape)}
-    for _ in range(ctx.n(25, 400)):
+    for _ in range(ctx.n(70, 1200)):
         nd = rng.randint(1, 3)
         shape = [rng.randint(1, 5) for _ in range(nd)]
-        chunks = [list(random_chunks(rng, s)) for s in shape]
-        k = rng.randint(1, 6)
+        chunks = [list(random_chunks(rng, s, zeros=0.1)) for s in shape]
         narr = rng.randint(1, nd)
         arr_axes = sorted(rng.sample(range(nd), narr))
-        index = [[rng.randrange(-shape[ax], shape[ax]) for _ in range(k)] if ax in arr_axes else None for ax in range(nd)]
-        yield "vindex", {"shape": shape, "chunks": chunks, "index": index}
+        # broadcastable point shapes: a common shape with some entries replaced by 1 / dimensions dropped
+        common = [rng.randint(1, 4) for _ in range(rng.choice([1, 1, 1, 2]))]
+        index, ashapes = [], []
+        use_ell = rng.random() < 0.15
+        for ax in range(nd):
+            n = shape[ax]
+            if ax in arr_axes:
+                sh = [c if rng.random() < 0.75 else 1 for c in common][rng.randint(0, len(common) - 1) if len(common) > 1 and rng.random() < 0.3 else 0:]
+                cnt = 1
+                for c in sh:
+                    cnt *= c
+                lo, hi = (-n, n) if rng.random() < 0.93 else (-n - 1, n + 1)
+                index.append(("array", [rng.randrange(lo, hi) for _ in range(cnt)]))
+                ashapes.append(sh)
+            else:
+                t = rng.random()
+                if t < 0.35:
+                    index.append(("int", rng.randrange(-n, n)))
+                elif t < 0.8 or use_ell is None:
+                    v = [None] + list(range(-n - 1, n + 2))
+                    index.append(("slice", [rng.choice(v), rng.choice(v), rng.choice([None, 1, 2, -1, -2])]))
+                else:
+                    index.append(("slice", [None, None, None]))
+        if use_ell:
+            # replace a trailing run of full slices by an Ellipsis when there is one
+            while index and index[-1] == ("slice", [None, None, None]):
+                index.pop()
+            index.append(("ellipsis", None))
+        yield "vindex", {"shape": shape, "chunks": chunks, "index": index, "ashapes": ashapes}
     for _ in range(ctx.n(25, 400)):
         nd = rng.randint(1, 3)
         shape = [rng.randint(1, 6) for _ in range(nd)]
